@@ -1193,8 +1193,8 @@ def check_C10(ctx):
             ctx.add_violation("the harness does not build with -race:\n" + ctx.harness_error[-1500:], "harness-race-build",
                               {"log": ctx.harness_error[-3000:]}, found_input=False)
         else:
-            plan = [("conc", 150), ("frames", 60), ("sched", 40), ("faults", 40), ("bar", 100), ("proxy", 200)] if ctx.tier == "quick" else \
-                   [("conc", 3000), ("frames", 1500), ("sched", 1000), ("faults", 1000), ("bar", 2000), ("proxy", 4000)]
+            plan = [("conc", 150), ("frames", 60), ("sched", 40), ("faults", 40), ("late", 120), ("bar", 100), ("proxy", 200)] if ctx.tier == "quick" else \
+                   [("conc", 3000), ("frames", 1500), ("sched", 1000), ("faults", 1000), ("late", 3000), ("bar", 2000), ("proxy", 4000)]
             if ctx.replay:
                 rp = json.load(open(ctx.replay))
                 plan = [(rp.get("family", "conc"), rp.get("n", 150))] if "race" in rp.get("signature", "") else []
